@@ -56,10 +56,35 @@ func kbBlindBytes(seed int64, curve elliptic.Curve, name string) []byte {
 	return out
 }
 
+// ctxBuf is one buffer that is rewritten in place for every call (callers reuse buffers)
+type ctxBuf struct{ buf []byte }
+
+func (cb *ctxBuf) get(name string) []byte {
+	c := kbContext(name)
+	if c == nil {
+		return nil
+	}
+	if cap(cb.buf) < 512 {
+		cb.buf = make([]byte, 0, 512)
+	}
+	cb.buf = append(cb.buf[:0], c...)
+	return cb.buf
+}
+
+func (cb *ctxBuf) get2(c []byte) []byte {
+	if cap(cb.buf) < 512 {
+		cb.buf = make([]byte, 0, 512)
+	}
+	cb.buf = append(cb.buf[:0], c...)
+	return cb.buf
+}
+
 func kbContext(name string) []byte {
 	switch name {
 	case "":
 		return nil
+	case "rare1", "rare2":
+		return []byte(name) // placeholder; the Ed25519 driver substitutes a searched context (edRareContext)
 	case "long":
 		return []byte(strings.Repeat("context-", 40))
 	}
@@ -103,6 +128,7 @@ func execKeyBlind(c *ctx, in ev) []ev {
 	pool := []*ecdsa.PublicKey{}
 	sigs := []struct{ r, s *big.Int }{}
 	enc := func(k *ecdsa.PublicKey) []byte { return elliptic.Marshal(curve, k.X, k.Y) }
+	cb := &ctxBuf{}
 	sks := map[string]*ecdsa.PrivateKey{}
 	for _, name := range []string{"s1", "s2", "s3"} {
 		sk, _ := ecdsa.CreateKey(curve, kbScalar(c.seed, curve, "sk-"+name).Bytes())
@@ -118,7 +144,7 @@ func execKeyBlind(c *ctx, in ev) []ev {
 			idx := jInt(s["in"]) % len(pool)
 			bname, cname := s["b"].(string), s["ctx"].(string)
 			bk, _ := ecdsa.CreateKey(curve, kbBlindBytes(c.seed, curve, bname))
-			ctx := kbContext(cname)
+			ctx := cb.get(cname)
 			var res *ecdsa.PublicKey
 			var err error
 			p := guard(func() {
@@ -150,7 +176,7 @@ func execKeyBlind(c *ctx, in ev) []ev {
 					bname, cname := s["b"].(string), s["ctx"].(string)
 					e["b"], e["ctx"] = bname, cname
 					bk, _ := ecdsa.CreateKey(curve, kbBlindBytes(c.seed, curve, bname))
-					r, sv, err = ecdsa.BlindKeySignWithContext(cryptorand.Reader, sks[skn], bk, kbDigest(c.seed, dname), kbContext(cname))
+					r, sv, err = ecdsa.BlindKeySignWithContext(cryptorand.Reader, sks[skn], bk, kbDigest(c.seed, dname), cb.get(cname))
 				} else {
 					r, sv, err = ecdsa.Sign(cryptorand.Reader, sks[skn], kbDigest(c.seed, dname))
 				}
@@ -160,6 +186,31 @@ func execKeyBlind(c *ctx, in ev) []ev {
 				e["sig"] = sigIDs.id(append(r.Bytes(), append([]byte{0xff, 0x00}, sv.Bytes()...)...))
 				sigs = append(sigs, struct{ r, s *big.Int }{r, sv})
 			}
+			out = append(out, e)
+		case "BlindLen": // context of a given length: compared with the reference only (no term)
+			n := jInt(s["n"])
+			bname := s["b"].(string)
+			bk, _ := ecdsa.CreateKey(curve, kbBlindBytes(c.seed, curve, bname))
+			ctxv := hashBytes(c.seed, fmt.Sprintf("kb-ctx-len-%d", n), n)
+			e := ev{"op": "BlindRef", "n": n, "b": bname, "ok": false, "ref_ok": false, "last_byte_matters": false, "panic": ""}
+			e["panic"] = guard(func() {
+				res, err := ecdsa.BlindPublicKeyWithContext(curve, pool[0], bk, cb.get2(ctxv))
+				if err != nil || res == nil {
+					return
+				}
+				e["ok"] = true
+				f := refBlindScalar(curve, new(big.Int).SetBytes(kbBlindBytes(c.seed, curve, bname)), ctxv)
+				x, y := curve.ScalarMult(pool[0].X, pool[0].Y, f.Bytes())
+				e["ref_ok"] = x.Cmp(res.X) == 0 && y.Cmp(res.Y) == 0
+				if n > 0 {
+					c2 := append([]byte{}, ctxv...)
+					c2[n-1] ^= 1
+					res2, err2 := ecdsa.BlindPublicKeyWithContext(curve, pool[0], bk, c2)
+					e["last_byte_matters"] = err2 == nil && (res2.X.Cmp(res.X) != 0 || res2.Y.Cmp(res.Y) != 0)
+				} else {
+					e["last_byte_matters"] = true
+				}
+			})
 			out = append(out, e)
 		case "Verify":
 			if len(sigs) == 0 {
@@ -198,6 +249,31 @@ func edBlindBytes(seed int64, name string) []byte {
 	return append(make([]byte, 0, 32), b...)
 }
 
+// edRareContext searches a context for which the INVERSE of the Ed25519 blinding factor of blind b1 has
+// leading zero bytes (below 2^240 resp. 2^248): the rare carry / padding cases of the inversion.
+func edRareContext(seed int64, name string) []byte {
+	limit := 240
+	if name == "rare2" {
+		limit = 248
+	}
+	blind := edBlindBytes(seed, "b1")
+	for i := 0; ; i++ {
+		ctx := []byte(fmt.Sprintf("%s-%d", name, i))
+		f := refEdBlindScalar(blind, ctx)
+		inv := new(big.Int).ModInverse(f, edL)
+		if inv != nil && inv.BitLen() <= limit && (name == "rare1" || inv.BitLen() > 240) {
+			return ctx
+		}
+	}
+}
+
+func edCtx(seed int64, name string) []byte {
+	if name == "rare1" || name == "rare2" {
+		return edRareContext(seed, name)
+	}
+	return kbContext(name)
+}
+
 func execKeyBlindEd(c *ctx, in ev) []ev {
 	out := []ev{{"op": "KNew", "scheme": "ed25519", "deterministic": true}}
 	keyIDs := &interner{m: map[string]string{}, p: "K"}
@@ -223,21 +299,36 @@ func execKeyBlindEd(c *ctx, in ev) []ev {
 			var err error
 			p := guard(func() {
 				if op == "Blind" {
-					res, err = ed25519.BlindPublicKeyWithContext(append([]byte{}, pool[idx]...), edBlindBytes(c.seed, bname), kbContext(cname))
+					res, err = ed25519.BlindPublicKeyWithContext(append([]byte{}, pool[idx]...), edBlindBytes(c.seed, bname), edCtx(c.seed, cname))
 				} else {
-					res, err = ed25519.UnblindPublicKeyWithContext(append([]byte{}, pool[idx]...), edBlindBytes(c.seed, bname), kbContext(cname))
+					res, err = ed25519.UnblindPublicKeyWithContext(append([]byte{}, pool[idx]...), edBlindBytes(c.seed, bname), edCtx(c.seed, cname))
 				}
 			})
 			e := ev{"op": op, "in": keyIDs.id(pool[idx]), "b": bname, "ctx": cname, "ok": err == nil && p == "" && len(res) == 32, "panic": p, "out": "", "ref_ok": false}
 			if err == nil && p == "" && len(res) == 32 {
 				e["out"] = keyIDs.id(res)
 				if op == "Blind" {
-					ref, ok := refEdBlind(pool[idx], edBlindBytes(c.seed, bname), kbContext(cname))
+					ref, ok := refEdBlind(pool[idx], edBlindBytes(c.seed, bname), edCtx(c.seed, cname))
 					e["ref_ok"] = ok && bytes.Equal(ref, res)
 				}
 				pool = append(pool, append([]byte{}, res...))
 			}
 			out = append(out, e)
+		case "BlindBad": // an invalid public key is refused, and the refusal leaves no trace in later calls
+			bad := bytes.Repeat([]byte{0xff}, 32)
+			bad[0] = byte(2 + jInt(s["in"])%200)
+			bad[31] = 0x7f
+			var err error
+			var res ed25519.PublicKey
+			p := guard(func() {
+				if jInt(s["in"])%2 == 0 {
+					res, err = ed25519.BlindPublicKeyWithContext(bad, edBlindBytes(c.seed, "b1"), edCtx(c.seed, "ctxA"))
+				} else {
+					res, err = ed25519.UnblindPublicKeyWithContext(bad, edBlindBytes(c.seed, "b1"), edCtx(c.seed, "ctxA"))
+				}
+			})
+			_, decodable := edDecode(bad)
+			out = append(out, ev{"op": "BlindBad", "refused": err != nil && res == nil, "decodable": decodable, "panic": p})
 		case "BSign", "Sign":
 			skn, dname := s["sk"].(string), s["d"].(string)
 			var sig []byte
@@ -246,7 +337,7 @@ func execKeyBlindEd(c *ctx, in ev) []ev {
 				if op == "BSign" {
 					bname, cname := s["b"].(string), s["ctx"].(string)
 					e["b"], e["ctx"] = bname, cname
-					sig = ed25519.BlindKeySignWithContext(sks[skn], kbDigest(c.seed, dname), edBlindBytes(c.seed, bname), kbContext(cname))
+					sig = ed25519.BlindKeySignWithContext(sks[skn], kbDigest(c.seed, dname), edBlindBytes(c.seed, bname), edCtx(c.seed, cname))
 				} else {
 					sig = ed25519.Sign(sks[skn], kbDigest(c.seed, dname))
 				}
@@ -366,6 +457,34 @@ func genKeyBlind(c *ctx, emit func(ev)) {
 		}
 		return steps
 	}
+	// contexts for which the inverse of the Ed25519 blinding factor has leading zero bytes: blind and unblind back
+	rareEd := func() []any {
+		steps := []any{}
+		np := 3
+		for _, cx := range []string{"rare1", "rare2"} {
+			for si := 0; si < 3; si++ {
+				steps = append(steps, ev{"op": "Blind", "in": si, "b": "b1", "ctx": cx})
+				steps = append(steps, ev{"op": "Unblind", "in": np, "b": "b1", "ctx": cx}) // must give the original key back
+				steps = append(steps, ev{"op": "Unblind", "in": si, "b": "b1", "ctx": cx})
+				steps = append(steps, ev{"op": "Blind", "in": np + 2, "b": "b1", "ctx": cx}) // and the other way round
+				np += 4
+			}
+		}
+		// refused calls in between must not influence later ones
+		for k := 0; k < 6; k++ {
+			steps = append(steps, ev{"op": "BlindBad", "in": k})
+			steps = append(steps, ev{"op": "Blind", "in": k % 3, "b": "b2", "ctx": "ctxA"})
+			steps = append(steps, ev{"op": "BSign", "sk": sks[k%3], "b": "b2", "ctx": "ctxA", "d": "d1"})
+		}
+		return steps
+	}
+	lenSweep := func(lo, hi int) []any {
+		steps := []any{}
+		for n := lo; n <= hi; n++ {
+			steps = append(steps, ev{"op": "BlindLen", "n": n, "b": []string{"b1", "lead0"}[n%2]})
+		}
+		return steps
+	}
 	schemes := []string{}
 	if want("ecdsa") {
 		schemes = append(schemes, "ecdsa-P224", "ecdsa-P256", "ecdsa-P384", "ecdsa-P521")
@@ -375,6 +494,11 @@ func genKeyBlind(c *ctx, emit func(ev)) {
 	}
 	for _, sc := range schemes {
 		emit(ev{"op": "KSeq", "scheme": sc, "steps": structured(), "kind": "structured"})
+		if sc == "ed25519" {
+			emit(ev{"op": "KSeq", "scheme": sc, "steps": rareEd(), "kind": "rare-inverse"})
+		} else {
+			emit(ev{"op": "KSeq", "scheme": sc, "steps": lenSweep(0, c.tierInt(140, 300)), "kind": "context-lengths"})
+		}
 		nseq, n := c.tierInt(6, 40), c.tierInt(50, 125)
 		if sc == "ed25519" {
 			nseq = c.tierInt(12, 160)
